@@ -131,7 +131,7 @@ CHECKS = {
              'per-call deadline never / finite expiring at any blocking point (between header and body included): a successful call holds exactly the payload produced for its own tag, do_collect is only entered for a call that has not returned, the call being collected '
              'does not return while the reader is inside its buffer, every call is unregistered at quiescence.',
         note='Found and fixed (6be8dac): a follower whose deadline expired while the reader was already collecting its response returned ETIMEDOUT at once and the reader went on writing into the dead stack frame (confirmed on the live runtime, harness/C11/native_follower_timeout.cpp).  '
-             'std::unordered_map<tag, ctx*> is a 2-slot array stand-in with the same find / insert / erase contract; the Callback delegate is specialised so callbacks are direct calls; StubImpl / Skeleton framing, real sockets, more than 2 callers, duplicate tags and user-supplied tags are outside.',
+             'std::unordered_map<tag, ctx*> is a 2-slot array stand-in with the same find / insert / erase contract; the Callback delegate is specialised so callbacks are direct calls; A 3-caller scenario (a third caller returning while the reader collects for a timed-out follower) runs in the thorough tier (40-60 min).  StubImpl / Skeleton framing, real sockets, more than 3 callers, duplicate tags and user-supplied tags are outside.',
         technique='bounded-context-switch sequentialisation of the real code (ir2c --thread) + CBMC, sync primitives as contracts', design_ref='DESIGN.md §3 C11, §7.3'),
     'C17': dict(
         text='Single-reader data path of the cache layer on the real fs/cache/store.cpp (ICacheStore::preadv2 / try_refill_range / do_refill_range / prefetch / tryget_size, RangeLock, iovector code) over a symbolic source file (1..8 bytes quick / 12 thorough, page = refill unit = 4), a media model '
